@@ -27,7 +27,7 @@ pub struct ClosureSpec {
     pub types: Vec<String>,
     pub ret: Option<String>,
     pub reqs: Vec<String>,
-    pub enss: Vec<String>,
+    pub enss: Vec<(Vec<String>, String)>,
 }
 
 #[derive(Debug, Default, Clone)]
@@ -49,6 +49,10 @@ pub struct FnSpec {
     pub no_unwind: bool,
     /// properties whose cone contains this function even without a tagged clause
     pub cone: Vec<String>,
+    /// E3c: type parameters instantiated by the contract file (ident, type text)
+    pub insts: Vec<(String, String)>,
+    /// E12: type ascriptions added to untyped `let` bindings (name, type) — checked by rustc
+    pub annots: Vec<(String, String)>,
     pub spec_file: String,
     pub spec_line: usize,
 }
@@ -182,6 +186,14 @@ pub fn parse_file(path: &str) -> Vec<Item> {
                     "as" => fs.out_name = Some(rest),
                     "ret" => fs.ret = Some(rest),
                     "external" => fs.external = true,
+                    "annot" => {
+                        let (a, b) = rest.split_once(':').unwrap_or_else(|| die(&format!("{}:{}: annot needs `name : type`", path, ln)));
+                        fs.annots.push((a.trim().to_string(), b.trim().to_string()));
+                    }
+                    "inst" => {
+                        let (a, b) = rest.split_once('=').unwrap_or_else(|| die(&format!("{}:{}: inst needs `T = type`", path, ln)));
+                        fs.insts.push((a.trim().to_string(), b.trim().to_string()));
+                    }
                     "cone" => { let (tags, _) = split_tags(&rest); fs.cone = tags; }
                     "no_unwind" => fs.no_unwind = true,
                     "attr" => fs.attrs.push(rest),
@@ -220,7 +232,7 @@ pub fn parse_file(path: &str) -> Vec<Item> {
                             "types" => cl.types = r2.split(';').map(|x| x.trim().to_string()).filter(|x| !x.is_empty()).collect(),
                             "ret" => cl.ret = Some(r2.trim().to_string()),
                             "req" => cl.reqs.push(r2.trim().to_string()),
-                            "ens" => cl.enss.push(r2.trim().to_string()),
+                            "ens" => { let (tags, text) = split_tags(r2); cl.enss.push((tags, text)); }
                             _ => die(&format!("{}:{}: unknown closure directive {}", path, ln, sub)),
                         }
                     }
